@@ -768,7 +768,7 @@ def c07_order(script, go):
 
 
 # ---------------------------------------------------------------- raw wire
-def judge_raw(script, go, view=None):
+def judge_raw(script, go, view=None, versions=None):
     """C05 on the raw bytes the peer took off the wire (peer_read / drain_raw): whole frames, each one a caller's
     request / an acknowledgement / a negotiation message, plus at most one unfinished frame at the very end whose
     bytes are consistent with the beginning of such a frame. Independent python parser."""
@@ -789,6 +789,10 @@ def judge_raw(script, go, view=None):
             typ = (rest[0] & 3) << 8 | rest[1]
             if rest[0] >> 5:
                 bad.append(("raw-stream-not-frames", "frame %d at offset %d: reserved header bits set (%s)" % (k, pos, rest[:10].hex())))
+                return bad
+            if versions is not None and (rest[0] >> 2) & 7 not in versions:
+                bad.append(("raw-header-version", "frame %d at offset %d: version bits %d, the client's version is %s (%s)" % (
+                    k, pos, (rest[0] >> 2) & 7, "/".join(map(str, versions)), rest[:10].hex())))
                 return bad
             cand = [key for key in want if key[0] == typ] + ([(typ, 10)] if typ in (T_ACK, T_GSV) else []) + ([(typ, 11)] if typ == T_SPV else [])
             if not cand:
